@@ -118,9 +118,12 @@ def main():
     bymap = {u.name: u for u in allu}
     for u in sel:
         r = res[u.name]
-        if r['status'] == 'inconclusive' and u.loops:
-            # the loop-contract proof could not be run to a verdict (weaving mismatch, timeout, instrumentation failure):
-            # the bounded arbiter decides what can be decided (DESIGN 4.2)
+        if r['status'] in ('inconclusive', 'failed') and u.loops:
+            # A loop-contract proof that fails or cannot be run to a verdict is never reported directly: a harmless restructuring of
+            # the loop (pointer walking instead of indexing, an extra loop shifting the ordinal) breaks invariants and loop frames
+            # and then also the obligations that depend on them.  The bounded arbiter - same function contract, real loops -
+            # decides what can be decided (DESIGN 4.2): it fails => violation (its counterexample is a real execution);
+            # it passes => the proof is broken, the property held on everything explored.
             arb = E.auto_arbiter(u)
             ar = E.run_unit(arb, a.tier, seed)
             res[arb.name] = ar
@@ -129,10 +132,11 @@ def main():
                 rp, reproduced = R.make_replay(prop, arb, afl, ar)
                 violations.append((arb.name, afl, rp, reproduced))
             elif ar['status'] == 'discharged':
-                notes.append('PROOF-BROKEN unit=%s (%s; function contract held up to bound: %s)' % (u.name, r.get('reason', '')[:120], arb.bound_note))
+                why = r.get('reason', '') or ','.join(f['obligation'] for f in r.get('failed', [])[:3])
+                notes.append('PROOF-BROKEN unit=%s (%s; function contract held up to bound: %s)' % (u.name, why[:160], arb.bound_note))
                 r['status'] = 'proof-broken'
             else:
-                inconclusive.append((u.name, r.get('reason', '') + ' / arbiter: ' + ar.get('reason', ar['status'])))
+                inconclusive.append((u.name, (r.get('reason', '') or 'loop-contract proof failed') + ' / arbiter: ' + ar.get('reason', ar['status'])))
             continue
         if r['status'] == 'inconclusive':
             inconclusive.append((u.name, r.get('reason', '')))
